@@ -185,7 +185,29 @@ var versions = []string{"v0.0.0", "v0.1.0", "v1.0.0", "v1.2.3", "v1", "v1.2", "v
 	// near misses of the one build tag that has a meaning
 	"v2.0.0+incompatible.1", "v2.0.0+incompatiblex", "v2.0.0+incompatible-fork", "v2.0.0+incompatibl", "v2.0.0+Incompatible", "v2.0.0+x.incompatible", "v2.0.0+incompatible+incompatible", "v2.0.0-incompatible", "v3.0.0+incompatible.x"}
 
+// FirstCalls is the menu of the fresh-process call-order check.
+func FirstCalls() []fw.Call {
+	var out []fw.Call
+	e := func(err error) string { return fmt.Sprint(err == nil) }
+	for _, p := range []string{"github.com/a/b", "gopkg.in/yaml.v2", "a.b/CON", "example.com/m/v2", "a.b/x~1"} {
+		p := p
+		out = append(out, fw.Call{Name: "CheckPath(" + p + ")", F: func() string { return e(module.CheckPath(p)) }})
+		out = append(out, fw.Call{Name: "CheckImportPath+FilePath(" + p + ")", F: func() string {
+			return e(module.CheckImportPath(p)) + e(module.CheckFilePath(p))
+		}})
+	}
+	out = append(out, fw.Call{Name: "SplitPathVersion+Check", F: func() string {
+		a, b, ok := module.SplitPathVersion("gopkg.in/yaml.v2")
+		return fmt.Sprint(a, b, ok, e(module.Check("example.com/m/v2", "v2.0.0")), e(module.Check("example.com/m", "v2.0.0+incompatible")), e(module.CheckPathMajor("gopkg.in/x.v1", ".v1")))
+	}})
+	out = append(out, fw.Call{Name: "MatchPrefixPatterns", F: func() string {
+		return fmt.Sprint(module.MatchPrefixPatterns("*.corp.example,a.b/[c-d]*", "x.corp.example/y"), module.MatchPrefixPatterns("a.b/c", "a.b/cd"))
+	}})
+	return out
+}
+
 func Run(r *fw.Run) {
+	defer fw.FirstCallOrders(r, r.ID, FirstCalls(), nil)
 	L := r.Pick(7, 8)
 	r.Bounds["alphabet"] = sigma1
 	r.Bounds["max_len"] = L
